@@ -269,6 +269,42 @@ def psk_map_rule(repo: Repo, rep: Report, ci: ClassInfo) -> int:
     cc = repo.method(ci, "_create_constellation")
     set_parents(cc.node)
     n = 0
+    # first choice: tabulate the inverse label map with the checker's own arithmetic (vectorised constructions)
+    from .. import gf2
+
+    evaluated = 0
+    for gray in (True, False):
+        g, _node = label_generator(cc, {"self.gray_coding": gray, "not self.gray_coding": not gray})
+        if g not in ("id", "gray"):
+            continue
+        lab = (lambda i: i) if g == "id" else gf2.gray
+        body = configured(cc.body, lambda t, gray=gray: tv_eval(t, {"self.gray_coding": gray, "not self.gray_coding": not gray}))
+        sl = backward_slice(body, "bit_to_symbol_map", {"self", "torch"})
+        bad = None
+        try:
+            for b in (2, 3, 4, 5, 6):
+                env = run_fragment(sl, {}, {"self.order": 2**b, "self._bits_per_symbol": b, "self.gray_coding": gray})
+                mp = env.get("bit_to_symbol_map")
+                if not (isinstance(mp, list) and len(mp) == 2**b and all(isinstance(v, int) and not isinstance(v, bool) for v in mp)):
+                    raise Unfoldable("map is not an integer list")
+                for i in range(2**b):
+                    if mp[lab(i)] != i:
+                        bad = (b, i, lab(i), mp[lab(i)])
+                        break
+                if bad:
+                    break
+        except (Unfoldable, FragRaise, FragReturn, IndexError, TypeError):
+            continue
+        evaluated += 1
+        n += 1
+        what = f"{ci.name}(gray_coding={gray}): bit_to_symbol_map tabulated for orders 4..64"
+        if bad:
+            b, i, li, got = bad
+            rep.violation("LABEL", cc, what, f"for order {2**b} the bit group {format(li, f'0{b}b')} (the label of point {i}) is mapped to point {got}: the demodulator returns label {format(lab(got), f'0{b}b')} for it", node=cc.node)
+        else:
+            rep.ok("LABEL", cc, what, "map[label(i)] = i for every point of every order: the map is the inverse of the label table", node=cc.node)
+    if evaluated == 2:
+        return n
     stores = [s for s in ast.walk(cc.node) if isinstance(s, ast.Assign) and isinstance(s.targets[0], ast.Subscript) and attr_chain(s.targets[0].value) == "bit_to_symbol_map"]
     for s in stores:
         guard = [a for a in ancestors(s) if isinstance(a, ast.If)]
@@ -739,6 +775,28 @@ def rule_memory(repo: Repo, rep: Report) -> int:
         else:
             same = complex(rv) == complex(iv)
             rep.check(same, "MEMORY", rs, f"{cname}.reset_state sets {attr} = {rv!r}; constructor registers {iv!r}", "reset restores the initial state", f"reset_state sets {rv!r} but a fresh instance starts from {iv!r}: after a reset the round trip differs from a fresh instance")
+    # memoryless schemes keep nothing between calls: no attribute of self is written by forward / its helpers
+    for file, cname in ((f"{MD}/psk.py", "BPSKModulator"), (f"{MD}/psk.py", "BPSKDemodulator"), (f"{MD}/psk.py", "QPSKModulator"), (f"{MD}/psk.py", "QPSKDemodulator"), (f"{MD}/psk.py", "PSKModulator"), (f"{MD}/psk.py", "PSKDemodulator"), (f"{MD}/qam.py", "QAMModulator"), (f"{MD}/qam.py", "QAMDemodulator"), (f"{MD}/pam.py", "PAMModulator"), (f"{MD}/pam.py", "PAMDemodulator"), (f"{MD}/dpsk.py", "DPSKDemodulator"), (f"{MD}/oqpsk.py", "OQPSKDemodulator"), (f"{MD}/identity.py", "IdentityModulator"), (f"{MD}/identity.py", "IdentityDemodulator")):
+        ci = repo.cls(file, cname)
+        writes = []
+        for mname, fi_ in ci.methods.items():
+            if mname in ("__init__", "reset_state", "_create_constellation", "_create_constellations", "plot_constellation") or mname.startswith("__"):
+                continue
+            for s_ in ast.walk(fi_.node):
+                tg = s_.targets if isinstance(s_, ast.Assign) else ([s_.target] if isinstance(s_, (ast.AugAssign, ast.AnnAssign)) else [])
+                for t in tg:
+                    root = t
+                    while isinstance(root, ast.Subscript):
+                        root = root.value
+                    ch = attr_chain(root) if isinstance(root, ast.Attribute) else None
+                    if ch and ch.startswith("self.") and ch.count(".") == 1:
+                        writes.append((fi_, s_, ch))
+        n += 1
+        if writes:
+            for fi_, s_, ch in writes[:3]:
+                rep.violation("MEMORY", fi_, f"{cname}: {unparse(s_)[:80]}", f"a scheme without memory writes `{ch}` while processing a call: state (or a tensor handed out to the caller) is carried into later calls, so a second modulate/demodulate changes the outcome of the first round trip", node=s_)
+        else:
+            rep.ok("MEMORY", ci, f"{cname}: no attribute of self is written outside the constructor", "every call is independent", nontrivial=False)
     # DPSK detection orientation
     dd = repo.method(repo.cls(f"{MD}/dpsk.py", "DPSKDemodulator"), "forward")
     a = {s.targets[0].id: s for s in ast.walk(dd.node) if isinstance(s, ast.Assign) and isinstance(s.targets[0], ast.Name) and s.targets[0].id in ("y_prev", "y_current", "z")}
